@@ -491,3 +491,55 @@ def spec_match_arg_error(fns, consts):
 
 
 SPECS["C10"].append(spec_match_arg_error)
+
+
+# ------------------------------------------------------------------ C05: after the escape nothing is interpreted
+
+def spec_trailing_positional(fns, consts):
+    """One iteration of Parser::parse's token loop, entered with trailing_values == true (the bare
+    `--` was seen earlier): on every path the token is NOT handed to any of the interpreters
+    (subcommand recognition, long/short option parsing, help subcommand), and the flag is still set
+    when the loop continues.  The loop body is executed as a MIR fragment from the block that binds
+    the fetched token back to the loop header; everything it calls is opaque."""
+    con = contracts.Contracts(fns, default_pure=True)
+    ctx = symex.Ctx(consts, con)
+    fn = _find(fns, "parser/parser.rs", "parse")
+    tv = fn.debug.get("trailing_values")
+    hdr = [b for b, blk in fn.blocks.items() if any(re.search(r"= RawArgs::next\(", s) for s in blk["stmts"])]
+    if not tv or len(hdr) != 1:
+        raise Unsupported("Parser::parse: token loop or `trailing_values` not found")
+    header = hdr[0]
+    nxt = re.search(r"return: (bb\d+)", [s for s in fn.blocks[header]["stmts"] if "RawArgs::next(" in s][0]).group(1)
+    sw = [s for s in fn.blocks[nxt]["stmts"] if s.startswith("switchInt")]
+    m = re.search(r"\[1: (bb\d+)", sw[0]) if sw else None
+    if not m:
+        raise Unsupported("Parser::parse: `while let Some(..)` shape not found")
+    body = m.group(1)
+    tok_local = re.match(r"^(_\d+) = RawArgs::next", [s for s in fn.blocks[header]["stmts"] if "RawArgs::next(" in s][0]).group(1)
+    ex = symex.Exec(ctx, fn, [("opq", "self"), ("opq", "matcher"), ("opq", "raw_args"), ("opq", "cursor")])
+    ex.run(start=body, stop_at=header, env={tv: ("bool", "true"), tok_local: ("opq", "next_token")}, havoc_unassigned=True, cut_loops=True)
+    interp = r"Parser::<'_>::(possible_subcommand|possible_long_flag_subcommand|parse_long_arg|parse_short_arg|parse_help_subcommand|parse_subcommand|is_new_arg)$"
+    # the body's own `pos_counter + 1` overflow asserts are not the subject here (the counter is a
+    # havoc'd usize in this fragment; overflowing it needs 2^64 positionals) - they are dropped
+    obs = [o for o in ex.obligations if o["kind"] != "assert"]
+    n_pos = 0
+    paths = [(pc, env.get("#calls", ()), env, True) for pc, env in ex.stops] + [(pc, calls, None, False) for (pc, _), calls in zip(ex.returns, ex.return_calls)] \
+        + [(pc, env.get("#calls", ()), None, False) for pc, env in ex.cuts]
+    for pc, calls, env, cont in paths:
+        bad = [c for c in calls if re.search(interp, c)]
+        n_pos += any(re.search(r"Parser::<'_>::(react|push_arg_values|resolve_pending)$|ArgMatcher::", c) for c in calls)
+        obs.append({"fn": fn.name, "block": "body", "kind": "spec", "target": "trailing_positional", "msg": "after `--`: the token is not handed to subcommand/long/short/help interpretation" + (" (" + bad[0].split("::")[-1] + " called)" if bad else ""),
+                    "pc": list(pc), "neg": "true" if bad else "false"})
+        if cont:
+            t = env.get(tv)
+            obs.append({"fn": fn.name, "block": "body", "kind": "spec", "target": "trailing_positional", "msg": "after `--`: positional-only mode stays on for the next token",
+                        "pc": list(pc), "neg": f"(not {t[1]})"})
+    if not paths or n_pos == 0:
+        raise Unsupported("Parser::parse: no path of the trailing-mode iteration stores a value (vacuous)")
+    for o in obs:
+        o.setdefault("target", "trailing_positional")
+    return ctx, obs, [{"function": fn.name + f" [one loop iteration {body}..{header}, trailing_values = true]", "mir_line": fn.line, "mir_blocks": len(fn.blocks),
+                       "obligations": len(obs), "return_paths": len(paths)}], con
+
+
+SPECS["C05"] = [spec_trailing_positional]
